@@ -22,7 +22,7 @@ HIST = hprop.HistoryProperty(
                     mechs=["leaf_50", "tiny_bev", "tiny_bev", "toyota_corolla", "tiny_ice", "tiny_ice"], steps=[15, 30, 45, 60, 60, 90, 120, 300]),
     nontrivial=lambda f: {"charged", "went_out_of_service"} <= f,
     rule="", assumptions=[],
-    quick=(8, 60, 40), thorough=(8, 1500, 70),
+    quick=(8, 60, 40), thorough=(8, 800, 60),
     instr_bias={"throttle": True, "kinds": [2, 2, 3, 3, 4, 4, 1, 1, 5, 8, 8, 0, 0, 6, 7]},
 )
 RULE = ("(a) component: generated BEV definitions (capacity 2-200 kWh, idle rate, positive consumption table, positive charge curve with "
@@ -191,7 +191,7 @@ def shard(tier, seed, idx) -> ShardResult:
     if idx < 8:
         res = ShardResult()
         comp.run(PROP, st_case(), check_case, lambda f: bool(f & {"charge_misaligned", "clamped", "ice"}), res,
-                 cases=600 if tier == "quick" else 30000, seed=seed * 1000 + idx, kind="component")
+                 cases=600 if tier == "quick" else 15000, seed=seed * 1000 + idx, kind="component")
         return res
     return hprop.shard(HIST, tier, seed, idx)
 
